@@ -191,7 +191,7 @@ inline OptCase genOptCase(Rng &r, int order, int dim, int N, int combo, int flag
     oc.flags = OptFlags::fromByte(flagsByte >= 0 ? flagsByte : r.range(0, 255));
     oc.rho = r.coin(0.4) ? 0.0 : r.logUni(1e-3, 1.0);
     static const int Ks[] = {1, 2, 3, 7, 16, 64};
-    oc.K = Ks[r.range(0, 5)];
+    oc.K = r.coin(0.3) ? r.range(1, 128) : Ks[r.range(0, 5)];
     oc.initByPoints = r.coin(0.3);
     if (combo == 2)
     {
@@ -206,7 +206,20 @@ inline OptCase genOptCase(Rng &r, int order, int dim, int N, int combo, int flag
         oc.userTm = r.coin(0.2);
         oc.userSm = r.coin(0.2);
     }
-    oc.prog = CostProgram::generate(r, dim);
+    if (r.coin(0.15))
+    {
+        // penalty-style single-term running cost on data with exact zeros (rest-to-rest, waypoints on coordinate planes)
+        oc.prog = CostProgram::generate(r, dim, -2);
+        if (r.coin(0.7))
+        {
+            oc.ref.bc.setZero(dim);
+            for (int i = 0; i <= N; ++i)
+                if (r.coin(0.4))
+                    oc.ref.P(i, r.range(0, dim - 1)) = 0.0;
+        }
+    }
+    else
+        oc.prog = CostProgram::generate(r, dim);
     return oc;
 }
 
